@@ -6,6 +6,7 @@ Cplex.
 from typing import List, Dict, Set, Tuple, Union
 from itertools import combinations
 from operator import itemgetter
+from math import isfinite
 from numpy import ndarray
 from corankco.algorithms.exact.exactalgorithmbase import ExactAlgorithmBase, IncompatibleArgumentsException
 from corankco.algorithms.pairwisebasedalgorithm import PairwiseBasedAlgorithm
@@ -77,8 +78,12 @@ class ExactAlgorithmCplex(ExactAlgorithmBase, PairwiseBasedAlgorithm):
         # the optimal consensus does not depend on the scale of the penalties, but the tolerances of the solver and
         # the precision threshold are absolute: the model is built with the penalties divided by B[1] (> 0 for any
         # valid scoring scheme), so that a disagreement costs 1 whatever the magnitude of the scoring scheme
+        scale: float = 1. / scoring_scheme.b_vector[1]
+        if not isfinite(scale):
+            # B[1] is so small that its inverse is not a float: the penalties are used as they are
+            scale = 1.
         consensus_rankings: List[Ranking] = self._compute_consensus_rankings_with_optim(
-            dataset, scoring_scheme * (1. / scoring_scheme.b_vector[1]), self._optimize, return_at_most_one_ranking)
+            dataset, scoring_scheme * scale, self._optimize, return_at_most_one_ranking)
         return Consensus(consensus_rankings=consensus_rankings,
                          dataset=dataset,
                          scoring_scheme=scoring_scheme,
